@@ -174,7 +174,17 @@ pub enum QuantumPolicy {
     PinOne(usize),
 }
 
+/// Called around every worker step (between-step points), e.g. by the C05 select monitor.
+pub trait StepObserver {
+    fn before_worker_step(&mut self, sim: &Sim, w: usize);
+    fn after_worker_step(&mut self, sim: &Sim, w: usize);
+}
+
 pub struct Sim {
+    pub observer: Option<Box<dyn StepObserver>>,
+    /// per-mille chance of inserting a clock tick before an action, and the tick sizes to draw from
+    pub tick_permille: u64,
+    pub tick_choices: Vec<u64>,
     pub sh: Arc<Mutex<Shared>>,
     pub workers: Vec<Worker<E, SimRx, SimTx>>,
     pub env: Environment<E>,
@@ -226,7 +236,7 @@ impl Sim {
         if let Some(b) = backend {
             env.set_effect_backend(b);
         }
-        Sim { sh, workers, env, clock: 0, actions: vec![], trouble: None, n, situations: Default::default(), heap_monitor: false, heap_violation: None, heap_checks: 0, heap_obs_max: Default::default(), heap_roots: [0; 8], rr: 0, pct_prio: vec![], pct_changes: vec![] }
+        Sim { observer: None, tick_permille: 0, tick_choices: vec![], sh, workers, env, clock: 0, actions: vec![], trouble: None, n, situations: Default::default(), heap_monitor: false, heap_violation: None, heap_checks: 0, heap_obs_max: Default::default(), heap_roots: [0; 8], rr: 0, pct_prio: vec![], pct_changes: vec![] }
     }
 
     pub fn set_eager(&mut self, eager: bool) {
@@ -245,6 +255,11 @@ impl Sim {
 
     pub fn log(&self) -> Vec<LogEntry> { self.sh.lock().unwrap().log.clone() }
     pub fn with_log<R>(&self, f: impl FnOnce(&[LogEntry]) -> R) -> R { f(&self.sh.lock().unwrap().log) }
+
+    /// Clones of the commands currently visible to worker `w` (what its next step will consume).
+    pub fn visible_cmds(&self, w: usize) -> Vec<Command<E>> {
+        self.sh.lock().unwrap().cmd[w].visible.iter().map(|(_, c)| c.clone()).collect()
+    }
 
     pub fn cmd_pending(&self, w: usize) -> usize { self.sh.lock().unwrap().cmd[w].pending.len() }
     pub fn cmd_visible(&self, w: usize) -> usize { self.sh.lock().unwrap().cmd[w].visible.len() }
@@ -276,6 +291,7 @@ impl Sim {
         match a {
             Act::StepWorker(w, q) => {
                 self.observe_situations(w);
+                if let Some(mut o) = self.observer.take() { o.before_worker_step(self, w); self.observer = Some(o); }
                 quiver_core::verif::set_quantum(Some(q));
                 let clock = self.clock;
                 let worker = &mut self.workers[w];
@@ -298,6 +314,7 @@ impl Sim {
                         Err(v) => self.heap_violation = Some((w, v)),
                     }
                 }
+                if self.trouble.is_none() { if let Some(mut o) = self.observer.take() { o.after_worker_step(self, w); self.observer = Some(o); } }
                 did
             }
             Act::StepEnv => {
@@ -378,7 +395,7 @@ impl Sim {
     }
 
     /// Actors: 0..n workers, n = env, n+1..2n+1 cmd channels, 2n+1..3n+1 evt channels.
-    fn enabled(&self) -> Vec<(usize, Act)> {
+    pub fn enabled(&self) -> Vec<(usize, Act)> {
         let mut v = vec![];
         let sh = self.sh.lock().unwrap();
         for w in 0..self.n {
@@ -419,6 +436,10 @@ impl Sim {
             if self.heap_violation.is_some() { return RunEnd::Stopped; }
             if stop(self) { return RunEnd::Stopped; }
             if self.actions.len() - start >= max_steps { return RunEnd::StepCap; }
+            if self.tick_permille > 0 && !self.tick_choices.is_empty() && rng.chance(self.tick_permille, 1000) {
+                let dt = *rng.pick(&self.tick_choices);
+                self.act(Act::Tick(dt));
+            }
             let mut en = self.enabled();
             if backend_pending() && !en.iter().any(|(_, a)| matches!(a, Act::StepEnv)) {
                 en.push((self.n, Act::StepEnv));
